@@ -409,6 +409,7 @@ func afStuffed(af *AdaptationField, from, to int) bool {
 // afCanonical: a non-empty adaptation field that is a faithful ISO serialisation.
 func afCanonical(af *AdaptationField) bool {
 	return af[3]&0x20 != 0 && af[4] >= 1 && afEnd(af) <= 188 && afContentEnd(af) <= afEnd(af) &&
+		(!afFlag(af, 0x01) || afExtStart(af) < afEnd(af)) &&
 		afStuffed(af, afContentEnd(af), afEnd(af))
 }
 
@@ -539,10 +540,9 @@ func afSame(af *AdaptationField, old AdaptationField) bool {
 //@   paths
 //@   requires af != nil && 6 <= start && start <= afContentEnd(af) && afContentEnd(af) <= 188
 //@   requires -256 <= delta && delta <= 1<<41 && (delta < 0 ==> start-delta <= afContentEnd(af))
-//@   ensures delta > 0 && old(afMin(afEnd(af), 187)) < old(afContentEnd(af))+delta ==> result == gots.ErrAdaptationFieldCannotGrow && afSame(af, old(*af))
-//@   ensures delta > 0 && old(afMin(afEnd(af), 187)) >= old(afContentEnd(af))+delta ==> result == nil && afGrown(af, old(*af), start, old(afContentEnd(af)), delta)
-//@   ensures delta < 0 ==> result == nil && afShrunk(af, old(*af), start, old(afContentEnd(af)), -delta)
-//@   ensures delta == 0 ==> result == nil && afSame(af, old(*af))
+//@   ensures delta > 0 && old(afMin(afEnd(af), 187)) < old(afContentEnd(af))+delta ==> result == gots.ErrAdaptationFieldCannotGrow
+//@   ensures delta > 0 && old(afMin(afEnd(af), 187)) >= old(afContentEnd(af))+delta ==> result == nil
+//@   ensures delta <= 0 ==> result == nil
 //@   ensures forall j in 0..188 :: af[j] == afResizedByte(old(*af), start, old(afContentEnd(af)), old(afMin(afEnd(af), 187)), delta, j)
 //@   modifies *af
 //@   loop 1 (i int, end int, endRight int)
@@ -750,6 +750,8 @@ func afToggleByte(old AdaptationField, on bool, m byte, at, n, j int) byte {
 
 //@ func (af *AdaptationField) SetHasPCR(value bool) error
 //@   props C03
+//@   paths
+//@   cases af[5] bits 0x1f
 //@   requires af != nil && afCanonical(af)
 //@   ensures value == old(afFlag(af, 0x10)) ==> result == nil && afSame(af, old(*af))
 //@   ensures value && !old(afFlag(af, 0x10)) && old(afContentEnd(af))+6 > old(afEnd(af)) ==> result != nil && afSame(af, old(*af))
